@@ -25,7 +25,7 @@ for pid in sys.argv[1:]:
             text = open(log, encoding='utf-8', errors='replace').read()
             checks[tier] = {
                 'verdict': (re.findall(r'^(HELD|VIOLATED|INCONCLUSIVE) property', text, re.M) or ['?'])[-1],
-                'mechanisms': sorted(set(re.findall(r'mechanism=([\w:+.-]+)', text))),
+                'mechanisms': sorted(set([m.rstrip(':') for m in re.findall(r'mechanism=([\w:+.-]+)', text)])),
             }
     suite = tail(os.path.join(base, 'suite.log'), 2)
     patch = open(os.path.join(base, 'patch.diff'), encoding='utf-8').read()
